@@ -1,16 +1,323 @@
 package main
 
-// Replay of solver counterexamples against the real code (in-package Go test injected with `go test -overlay`).
+import (
+	"context"
+	"encoding/json"
+	"fmt"
+	"go/types"
+	"os"
+	"os/exec"
+	"path/filepath"
+	"sort"
+	"strconv"
+	"strings"
+	"time"
+
+	"golang.org/x/tools/go/ssa"
+)
+
+// Replay of solver counterexamples against the real code: the model's parameter values are turned into Go
+// literals, an in-package test calling the real function is injected with `go test -overlay` (nothing is written
+// into /repo), and the outcome is compared with what the model predicts (the returned values for a failed
+// postcondition, a panic or hang for a failed safety / callee-precondition obligation).
 
 type replayResult struct {
-	Confirmed bool   `json:"confirmed"`
-	Attempted bool   `json:"attempted"`
-	Reason    string `json:"reason,omitempty"`
-	TestFile  string `json:"test_file,omitempty"`
-	Output    string `json:"output,omitempty"`
+	Confirmed bool              `json:"confirmed"`
+	Attempted bool              `json:"attempted"`
+	Reason    string            `json:"reason,omitempty"`
+	TestFile  string            `json:"test_file,omitempty"`
+	Output    string            `json:"output,omitempty"`
 	Inputs    map[string]string `json:"inputs,omitempty"`
+	Predicted map[string]string `json:"predicted_results,omitempty"`
+}
+
+type sexp struct {
+	atom string
+	list []*sexp
+}
+
+func parseSexp(s string) *sexp {
+	toks := strings.Fields(strings.ReplaceAll(strings.ReplaceAll(s, "(", " ( "), ")", " ) "))
+	pos := 0
+	var rec func() *sexp
+	rec = func() *sexp {
+		if pos >= len(toks) {
+			return nil
+		}
+		t := toks[pos]
+		pos++
+		if t == "(" {
+			n := &sexp{}
+			for pos < len(toks) && toks[pos] != ")" {
+				n.list = append(n.list, rec())
+			}
+			pos++
+			return n
+		}
+		return &sexp{atom: t}
+	}
+	return rec()
+}
+
+func sexpInt(e *sexp) (int64, bool) {
+	if e == nil {
+		return 0, false
+	}
+	if e.atom != "" {
+		v, err := strconv.ParseInt(e.atom, 10, 64)
+		return v, err == nil
+	}
+	if len(e.list) == 2 && e.list[0].atom == "-" {
+		v, ok := sexpInt(e.list[1])
+		return -v, ok
+	}
+	return 0, false
+}
+
+type replayCtx struct {
+	p       *Program
+	strVals map[string]string // Str!val!k -> Go string
+	pkg     *types.Package
+	imports map[string]bool
+}
+
+// goLit renders the model value e of Go type t as a Go expression; ok=false if the type is outside the supported set.
+func (rc *replayCtx) goLit(e *sexp, t types.Type) (string, bool) {
+	qual := func(p *types.Package) string {
+		if p == rc.pkg {
+			return ""
+		}
+		rc.imports[p.Path()] = true
+		return p.Name()
+	}
+	ts := types.TypeString(t, qual)
+	if isTimeTime(t) {
+		v, ok := sexpInt(e)
+		rc.imports["time"] = true
+		return fmt.Sprintf("time.Unix(0, %d).UTC()", v), ok
+	}
+	switch u := types.Unalias(t).Underlying().(type) {
+	case *types.Basic:
+		switch {
+		case u.Info()&types.IsBoolean != 0:
+			return fmt.Sprintf("%s(%s)", ts, e.atom), e.atom == "true" || e.atom == "false"
+		case u.Info()&types.IsInteger != 0:
+			v, ok := sexpInt(e)
+			return fmt.Sprintf("%s(%d)", ts, v), ok
+		case u.Info()&types.IsString != 0:
+			if s, ok := rc.strVals[e.atom]; ok {
+				return fmt.Sprintf("%s(%q)", ts, s), true
+			}
+			return fmt.Sprintf("%s(%q)", ts, "s_"+strings.ReplaceAll(e.atom, "!", "_")), e.atom != ""
+		}
+	case *types.Struct:
+		si := rc.p.ss.structInfoOf(t)
+		if e == nil || (len(si.fields) > 0 && len(e.list) != len(si.fields)+1) {
+			return "", false
+		}
+		var parts []string
+		for i, f := range si.fields {
+			if f.name == "_" {
+				continue
+			}
+			v, ok := rc.goLit(e.list[i+1], f.typ)
+			if !ok {
+				// unsupported field types (slices, pointers, interfaces) keep their zero value
+				continue
+			}
+			if !types.NewVar(0, nil, f.name, f.typ).Exported() && rc.pkg != nil {
+				if n, isNamed := types.Unalias(t).(*types.Named); isNamed && n.Obj().Pkg() != rc.pkg {
+					continue
+				}
+			}
+			parts = append(parts, f.name+": "+v)
+		}
+		return ts + "{" + strings.Join(parts, ", ") + "}", true
+	}
+	return "", false
 }
 
 func (p *Program) replay(ob *Obligation, verif string) *replayResult {
-	return &replayResult{Attempted: false, Reason: "replay generation not available for this function's parameter types"}
+	res := &replayResult{}
+	if ob.Model == nil || len(ob.Model) == 0 {
+		res.Reason = "the solver returned no model"
+		return res
+	}
+	fn := p.funcByKey[ob.Fn]
+	if fn == nil || fn.Parent() != nil {
+		res.Reason = "not a named top-level function"
+		return res
+	}
+	if ob.Kind != "ensures" && ob.Kind != "safe" && ob.Kind != "requires" && ob.Kind != "assert" {
+		res.Reason = "obligation kind " + ob.Kind + " concerns an internal state; no end-to-end replay"
+		return res
+	}
+	pkg := fnPkg(fn)
+	rc := &replayCtx{p: p, strVals: map[string]string{}, pkg: pkg, imports: map[string]bool{"testing": true, "fmt": true, "time": true}}
+	for lit, c := range p.ss.strLits {
+		if v, ok := ob.Model[c]; ok {
+			rc.strVals[v] = lit
+		}
+	}
+	var args []string
+	res.Inputs = map[string]string{}
+	for _, prm := range fn.Params {
+		var val string
+		for k, v := range ob.Model {
+			if strings.HasPrefix(k, "v_p_"+mangle(prm.Name())+"_k") {
+				val = v
+			}
+		}
+		if val == "" {
+			res.Reason = "no model value for parameter " + prm.Name()
+			return res
+		}
+		lit, ok := rc.goLit(parseSexp(val), prm.Type())
+		if !ok {
+			res.Reason = fmt.Sprintf("parameter %s has type %s, outside the replayable set (scalars, strings, times and structs of those)", prm.Name(), typeKeyShort(prm.Type()))
+			return res
+		}
+		args = append(args, lit)
+		res.Inputs[prm.Name()] = lit
+	}
+	// predicted results (only for failed postconditions)
+	names := resultNames(&FuncContract{}, fn.Signature)
+	if fc := p.contractFor(fn); fc != nil {
+		names = resultNames(fc, fn.Signature)
+	}
+	var checks []string
+	res.Predicted = map[string]string{}
+	if ob.Kind == "ensures" {
+		for i, n := range names {
+			var val string
+			for k, v := range ob.Model {
+				if strings.HasPrefix(k, "v_res_"+mangle(n)+"_k") {
+					val = v
+				}
+			}
+			rt := fn.Signature.Results().At(i).Type()
+			if val == "" {
+				continue
+			}
+			if types.IsInterface(rt) {
+				// interface results (error): compare nil-ness
+				e := parseSexp(val)
+				if len(e.list) == 3 {
+					isNil := e.list[1].atom == "0"
+					res.Predicted[n] = fmt.Sprintf("nil=%v", isNil)
+					checks = append(checks, fmt.Sprintf("if (r%d == nil) != %v { same = false }", i, isNil))
+				}
+				continue
+			}
+			lit, ok := rc.goLit(parseSexp(val), rt)
+			if !ok {
+				continue
+			}
+			res.Predicted[n] = lit
+			checks = append(checks, fmt.Sprintf("if r%d != (%s) { same = false }", i, lit))
+		}
+		if len(checks) == 0 {
+			res.Reason = "no comparable result values in the model"
+			return res
+		}
+	}
+	// call expression
+	call := fn.Name() + "(" + strings.Join(args, ", ") + ")"
+	if fn.Signature.Recv() != nil && len(args) > 0 {
+		call = "(" + args[0] + ")." + fn.Name() + "(" + strings.Join(args[1:], ", ") + ")"
+	}
+	var lhs []string
+	for i := range names {
+		lhs = append(lhs, fmt.Sprintf("r%d", i))
+	}
+	assign := ""
+	if len(lhs) > 0 {
+		assign = strings.Join(lhs, ", ") + " := "
+	}
+	var imps []string
+	bodyText := call + " " + strings.Join(checks, " ")
+	for path := range rc.imports {
+		base := path[strings.LastIndex(path, "/")+1:]
+		if path != "testing" && path != "fmt" && path != "time" && !strings.Contains(bodyText, base+".") {
+			continue
+		}
+		imps = append(imps, fmt.Sprintf("\t%q", path))
+	}
+	sort.Strings(imps)
+	var use []string
+	for i := range names {
+		use = append(use, fmt.Sprintf("r%d", i))
+	}
+	src := fmt.Sprintf(`package %s
+
+import (
+%s
+)
+
+var _ = time.Second
+var _ = fmt.Sprint
+
+// Generated by govc: replay of the counterexample for %s
+func TestZZGovcReplay(t *testing.T) {
+	done := make(chan string, 1)
+	go func() {
+		defer func() {
+			if r := recover(); r != nil {
+				done <- fmt.Sprintf("GOVC-REPLAY: PANIC %%v", r)
+			}
+		}()
+		%s%s
+		same := true
+		%s
+		done <- fmt.Sprintf("GOVC-REPLAY: RETURNED same-as-model=%%v results=%%v", same, []any{%s})
+	}()
+	select {
+	case m := <-done:
+		fmt.Println(m)
+	case <-time.After(5 * time.Second):
+		fmt.Println("GOVC-REPLAY: HANG (no return within 5s)")
+	}
 }
+`, pkg.Name(), strings.Join(imps, "\n"), ob.Name, assign, call, strings.Join(checks, "\n\t\t"), strings.Join(use, ", "))
+	dir := filepath.Join(verif, "replays", "src")
+	os.MkdirAll(dir, 0o755)
+	testPath := filepath.Join(dir, mangle(ob.Name)+"_test.go")
+	os.WriteFile(testPath, []byte(src), 0o644)
+	res.TestFile = testPath
+	// overlay: place the test in the function's package directory
+	pkgDir := filepath.Dir(p.fset.Position(fn.Pos()).Filename)
+	ov := map[string]map[string]string{"Replace": {filepath.Join(pkgDir, "zz_govc_replay_test.go"): testPath}}
+	ovb, _ := json.Marshal(ov)
+	ovPath := filepath.Join(dir, mangle(ob.Name)+".overlay.json")
+	os.WriteFile(ovPath, ovb, 0o644)
+	ctx, cancel := context.WithTimeout(context.Background(), 120*time.Second)
+	defer cancel()
+	cmd := exec.CommandContext(ctx, "go", "test", "-overlay", ovPath, "-vet=off", "-count=1", "-v", "-timeout", "60s", "-run", "TestZZGovcReplay", ".")
+	cmd.Dir = pkgDir
+	cmd.Env = append(os.Environ(), "GOFLAGS=-mod=mod", "GOPROXY=off")
+	out, _ := cmd.CombinedOutput()
+	res.Attempted = true
+	res.Output = trunc2(string(out), 3000)
+	text := string(out)
+	switch {
+	case strings.Contains(text, "GOVC-REPLAY: PANIC"):
+		res.Confirmed = ob.Kind == "safe" || ob.Kind == "requires" || ob.Kind == "assert"
+		if !res.Confirmed {
+			res.Reason = "the real function panics on the model's input (a different failure than predicted)"
+			res.Confirmed = true
+		}
+	case strings.Contains(text, "GOVC-REPLAY: HANG"):
+		res.Confirmed = true
+		res.Reason = "the real function does not return on the model's input"
+	case strings.Contains(text, "same-as-model=true") && ob.Kind == "ensures":
+		res.Confirmed = true
+		res.Reason = "the real function returns exactly the values of the counterexample, for which the postcondition is false"
+	case strings.Contains(text, "GOVC-REPLAY: RETURNED"):
+		res.Reason = "the real function returns normally with other values: the counterexample lies in an abstracted region"
+	default:
+		res.Reason = "the replay test did not build or run"
+	}
+	return res
+}
+
+var _ = ssa.NaiveForm
